@@ -1353,6 +1353,12 @@ class Interp:
             return V(('Floor', arg(0).e), 'A')
         if name in ('maximum', 'minimum') and len(n.args) == 2 and not kws:
             return V(('Bin', arg(0).e, arg(1).e), 'A')
+        if name in ('multiply', 'add', 'subtract', 'divide', 'true_divide', 'power') and len(n.args) == 2 and set(kws) <= {'dtype'}:
+            # the binary ufuncs called by name; dtype=<e>.dtype / np.floatXX fixes the result dtype
+            node = {'divide': 'Div', 'true_divide': 'Div', 'power': 'Pow'}.get(name, 'Bin')
+            e = (node, arg(0).e, arg(1).e)
+            dt = self.dtype_kw(kws.get('dtype'), env, fr) if 'dtype' in kws else None
+            return V(('Astype', e, dt) if dt is not None else e, 'A')
         if name == 'where' and len(n.args) == 3 and not kws:
             return V(('Where', arg(0).e, arg(1).e, arg(2).e), 'A')
         if name in self.NP_RED and n.args:
